@@ -140,6 +140,29 @@ def ir_search_shape(fi: FuncInfo, partial_bound_ok: Optional[bool] = None):
             obs.append(("prune", ok, f"continue under {txt}", "a branch is pruned only by a bound that is a lower bound of every label in its subtree", ex))
         else:
             obs.append(("exit", False, f"break under {txt}", "the branching loop is never cut short", ex))
+    # the recursive call itself: every member of the cell is searched unless a recognised bound says otherwise - a condition evaluated before
+    # the call (an enclosing `if`, an earlier operand of the same `and` / `or`, a conditional expression) is a prune like a guarded `continue`
+    for c in [c for c in walk_local(branch) if isinstance(c, ast.Call) and call_name(c) == me]:
+        conds = []
+        cur = c
+        while cur is not branch and cur in pm:
+            par = pm[cur]
+            if isinstance(par, ast.BoolOp) and par.values and par.values[0] is not cur:
+                conds.extend(norm(v) for v in par.values[:par.values.index(cur)])
+            elif isinstance(par, ast.IfExp) and cur is not par.test:
+                conds.append(norm(par.test))
+            elif isinstance(par, ast.comprehension) or (isinstance(par, (ast.ListComp, ast.SetComp, ast.GeneratorExp, ast.DictComp)) and any(g.ifs for g in par.generators)):
+                conds.extend(norm(t) for g in (par.generators if not isinstance(par, ast.comprehension) else [par]) for t in g.ifs)
+            elif isinstance(par, (ast.If, ast.While)) and cur is not par.test:
+                conds.append(norm(par.test))
+            cur = par
+        bound_neg = [t for t in conds if pmatch("not ($b['label'] is not None and $pl > $b['label'])", ast.parse(t, mode="eval").body, {"b": best}) is not None
+                     or pmatch("$b['label'] is None or $pl <= $b['label']", ast.parse(t, mode="eval").body, {"b": best}) is not None]
+        if conds and len(bound_neg) == len(conds):
+            ok = True if partial_bound_ok else (None if partial_bound_ok is None else False)
+            obs.append(("prune", ok, f"{me}(...) only under {[t[:60] for t in conds]}", "a branch is pruned only by a bound that is a lower bound of every label in its subtree", c))
+        elif conds:
+            obs.append(("prune", False, f"{me}(...) only under {[t[:60] for t in conds]}", "a branch is pruned only by a bound that is a lower bound of every label in its subtree", c))
     # leaf handling
     leaf_if = [n for n in fn.body if isinstance(n, ast.If) and pmatch("all((len($c) == 1 for $c in $p))", n.test, {"p": part}) is not None]
     if not leaf_if:
